@@ -4,7 +4,8 @@
 # (Equivalent by hand, in /repo itself: git -C /repo apply seeded/<id>/patch.diff; ./check <ID>; git -C /repo checkout -- .)
 cd "$(dirname "$0")/.."
 J="${1:-4}"
-ls -d seeded/C*/ | xargs -P "$J" -I{} sh -c '
+# SWEEP_PROPS="C01 C03 ..." restricts the sweep to the stored changes of these properties
+ls -d seeded/C*/ | { if [ -n "$SWEEP_PROPS" ]; then grep -E "seeded/($(echo $SWEEP_PROPS | tr ' ' '|'))-"; else cat; fi; } | xargs -P "$J" -I{} sh -c '
   D="{}"; D=${D%/}; ID=$(basename "$D"); WT=/tmp/sw_$ID
   CH=$(/venv/bin/python -c "import json;print(\" \".join(json.load(open(\"$D/meta.json\"))[\"confirmed_by_me\"][\"caught_by\"]))")
   git -C /repo worktree add -q --detach "$WT" HEAD || { echo "$ID worktree_failed"; exit 0; }
